@@ -143,13 +143,17 @@ class CoLock:
     """cooperative replacement for threading.Lock: never blocks the OS thread while the scheduler owns the schedule"""
 
     def __init__(self, sched):
-        self.sched = sched
+        self._s = sched  # a Scheduler, or a one-element list that holds the Scheduler once there is one
         self.owner = None
         self.real = threading.Lock()
 
+    @property
+    def sched(self):
+        return self._s[0] if isinstance(self._s, list) else self._s
+
     def acquire(self, blocking=True, timeout=-1):
         s = self.sched
-        t = s.tid()
+        t = s.tid() if s is not None else None
         if t is None:
             return self.real.acquire(blocking, timeout)
         s.point("lock.acquire")
@@ -162,7 +166,7 @@ class CoLock:
 
     def release(self):
         s = self.sched
-        t = s.tid()
+        t = s.tid() if s is not None else None
         if t is None:
             return self.real.release()
         if self.owner != t:
@@ -233,6 +237,29 @@ class OnePreemptionChooser:
             return self.first
         others = [t for t in runnable if t != self.first]
         return others[0] if others else runnable[0]
+
+
+class TwoPreemptionChooser:
+    """thread 0 runs for k1 scheduling decisions, is preempted; thread 1 runs for k2 decisions, is preempted; thread 0 runs
+    to completion, then thread 1, then any other thread: every schedule of two threads with (at most) two preemptions"""
+
+    def __init__(self, k1, k2):
+        self.k1, self.k2 = k1, k2
+        self.n0 = self.n1 = 0
+
+    def __call__(self, runnable, step, current):
+        if self.n0 < self.k1 and 0 in runnable:
+            self.n0 += 1
+            return 0
+        if self.n1 < self.k2 and 1 in runnable:
+            self.n0 = self.k1  # phase one is over even if thread 0 blocked early
+            self.n1 += 1
+            return 1
+        self.n1 = self.k2
+        for t in (0, 1):
+            if t in runnable:
+                return t
+        return runnable[0]
 
 
 def dfs_schedules(run_once, max_runs=2000):
